@@ -37,6 +37,8 @@ static inline GenCfg cfg_from_stream (CS &cs, GenCfg base) {
   if (!base.indirect) g.indirect = false;
   if (!base.overflow) g.overflow = false;
   if (!base.mem_operands) g.mem_operands = false;
+  if (base.force_calls) g.calls = base.calls;
+  if (base.force_allocas) g.allocas = base.allocas;  // properties about calls keep them in every case
   return g;
 }
 
@@ -50,6 +52,7 @@ static inline bool make_case (CS &cs, const GenCfg &base, Case &c, Outcome &o) {
   int nin = (int) cs.range (1, 3);
   for (int i = 0; i < nin; i++) {
     Input in = gen_input (cs);
+    if (const char *dv = harness_opt ("depth")) in.depth = atoi (dv);  // triage aid: force the call depth of a decoded case
     Obs ob;
     RefStats st;
     std::string why;
@@ -103,6 +106,7 @@ static inline void label_features (const Case &c, Outcome &o) {
   if (f.blkarg) o.label ("blk_arg");
   if (f.multi_res) o.label ("multi_result");
   if (f.wide) o.label ("wide_signature");
+  if (f.multi_ret) o.label ("several_returns");
   if (f.fp8) o.label ("fp_args_fill_all_xmm_arg_regs");
   long steps = 0;
   int back = 0, mem = 0, calls = 0, ext = 0;
